@@ -83,11 +83,19 @@ def views(tier):
                     yield ("col", base, a, b, s, j)
             for r0, r1, c0, c1 in itertools.product((0, 1, None), (1, 2, None), (0, 1, None), (1, 3, None)):
                 yield ("sub", base, r0, r1, c0, c1)
+                # views of views: transpose / row / column / diagonal / whole-block sum of a sub-matrix
+                yield ("T", ("sub", base, r0, r1, c0, c1))
+                yield ("row", ("T", ("sub", base, r0, r1, c0, c1)), 0, None, None, None)
+                yield ("msum", ("T", ("sub", base, r0, r1, c0, c1)))
+                yield ("frob", ("sub", base, r0, r1, c0, c1))
+                yield ("diag", ("sub", base, r0, r1, c0, c1), "m")
             # stepped, reversed and negative-bound sub-matrices
             for (r0, r1, rs), (c0, c1, cs) in itertools.product(
                     ((None, None, 2), (None, None, -1), (-2, None, None), (None, -1, None), (1, None, 2), (None, None, None)), repeat=2):
                 yield ("sub", base, r0, r1, c0, c1, rs, cs)
                 yield ("msum", ("sub", base, r0, r1, c0, c1, rs, cs))
+                yield ("T", ("sub", base, r0, r1, c0, c1, rs, cs))
+                yield ("frob", ("sub", base, r0, r1, c0, c1, rs, cs))
             yield ("diag", base, "f")
             yield ("diag", base, "m")
             for i in range(rr):
